@@ -137,7 +137,7 @@ theorem ErrAt.here (st : PState N) (c : PCode N) : ErrAt st ⟨c, errLocOf st⟩
 /-! ### normal form of `do` blocks -/
 
 @[simp] theorem P.bind_eq (x : P N α) (f : α → P N β) : (x >>= f) = P.bind x f := rfl
-@[simp] theorem P.pure_eq (a : α) : (Pure.pure a : P N α) = P.pure a := rfl
+@[simp] theorem P.pure_eq_s (a : α) : (Pure.pure a : P N α) = P.pure a := rfl
 @[simp] theorem P.map_eq (g : α → β) (x : P N α) :
     (g <$> x) = P.bind x (fun a => P.pure (g a)) := rfl
 
@@ -380,7 +380,7 @@ macro "sauto" : tactic => `(tactic| repeat (first
   | intro _))
 
 /-- unfold to the normal form -/
-macro "snorm" : tactic => `(tactic| simp only [P.bind_eq, P.pure_eq, P.map_eq])
+macro "snorm" : tactic => `(tactic| simp only [P.bind_eq, P.pure_eq_s, P.map_eq])
 
 /-! ### the functions of the parser, bottom-up -/
 
